@@ -30,18 +30,7 @@ def selfcheck():
     B.selfcheck()
 
 
-def kwcall(fn, *values):
-    """fn(name0=values[0], name1=values[1], ...) with the parameter names read from the function's own signature
-    (so a renamed parameter is followed); None if the signature has no named positional parameters."""
-    import inspect
-    try:
-        ps = [p for p in inspect.signature(fn).parameters.values()
-              if p.kind in (p.POSITIONAL_OR_KEYWORD, p.KEYWORD_ONLY)]
-    except (TypeError, ValueError):
-        return None
-    if len(ps) < len(values):
-        return None
-    return lambda: fn(**{p.name: v for p, v in zip(ps, values)})
+from vf.harness import kwcall  # noqa: E402
 
 
 def o_roundtrip(ctx, case):
